@@ -428,14 +428,29 @@ async fn stress(run: &mut Run, rng: &mut Rng, own: &RawNode, remotes: &[RawNode]
 /// must be listed and announced at once (within 1.8 s here; the handler blocks for 3 s), not when the handler gets round to finishing.
 /// (real time, multi-thread runtime)
 fn blocked_handler_exit(run: &mut Run, cases: usize) -> anyhow::Result<()> {
+    blocked_handler(run, cases, "listing")
+}
+
+/// `what`: "listing" (C04/C09: the loss is listed and announced at once), "limit" (C10: the departed peer
+/// no longer counts against `max_concurrent_connections`), "redial" (C13: a High-affinity known peer
+/// whose connection was lost is dialled again at the next connectivity check)
+pub fn blocked_handler(run: &mut Run, cases: usize, what: &'static str) -> anyhow::Result<()> {
     for case in 0..cases {
-        run.mark(&format!("scenario blocked_handler_exit case {case}"));
+        run.mark(&format!("scenario blocked_handler/{what} case {case}"));
         let seed = run.seed ^ 0xB10C ^ (case as u64);
         let rt = tokio::runtime::Builder::new_multi_thread().worker_threads(4).enable_all().build()?;
-        let res: anyhow::Result<(Option<u128>, bool)> = rt.block_on(async move {
+        let res: anyhow::Result<(Option<u128>, bool, Option<bool>)> = rt.block_on(async move {
             let fabric = Fabric::new(seed);
+            let mut cb = config_idle(30_000);
+            if what == "limit" {
+                cb.max_concurrent_connections = Some(1);
+            }
+            if what == "redial" {
+                cb.connectivity_check_interval_ms = Some(300);
+            }
             let a = start_node(&fabric, seed, 1, config_idle(30_000))?;
-            let b = start_node(&fabric, seed, 2, config_idle(30_000))?;
+            let b = start_node(&fabric, seed, 2, cb)?;
+            let c = start_node(&fabric, seed, 3, config_idle(30_000))?;
             let (mut rx, _) = b.net.subscribe()?;
             a.net.connect_with_peer_id(b.addr, b.id).await?;
             tokio::time::sleep(Duration::from_millis(100)).await;
@@ -448,10 +463,14 @@ fn blocked_handler_exit(run: &mut Run, cases: usize) -> anyhow::Result<()> {
             });
             tokio::time::sleep(Duration::from_millis(150)).await; // the handler is now blocking a worker of B
             let t0 = std::time::Instant::now();
-            if case % 2 == 0 {
+            if case % 2 == 0 || what == "redial" {
                 let _ = a.net.disconnect(b.id);
             } else {
                 let _ = a.net.shutdown().await;
+            }
+            if what == "redial" {
+                // only now does B learn that A is a High-affinity peer it should stay connected to
+                b.net.known_peers().insert(anemo::types::PeerInfo { peer_id: a.id, affinity: anemo::types::PeerAffinity::High, address: vec![a.addr.into()] });
             }
             let mut lost_after = None;
             let deadline = tokio::time::Instant::now() + Duration::from_millis(2200);
@@ -466,16 +485,42 @@ fn blocked_handler_exit(run: &mut Run, cases: usize) -> anyhow::Result<()> {
                 }
             }
             let still = b.net.peers().contains(&a.id);
-            Ok((lost_after, still))
+            let extra = match what {
+                // a third peer arrives while the departed peer's handler is still busy
+                "limit" => Some(matches!(tokio::time::timeout(Duration::from_millis(1500), c.net.connect_with_peer_id(b.addr, b.id)).await, Ok(Ok(_)))),
+                "redial" => {
+                    // within a few connectivity checks B is connected to A again
+                    let deadline = tokio::time::Instant::now() + Duration::from_millis(2000);
+                    let mut again = false;
+                    loop {
+                        match tokio::time::timeout_at(deadline, rx.recv()).await {
+                            Ok(Ok(PeerEvent::NewPeer(p))) if p == a.id => {
+                                again = true;
+                                break;
+                            }
+                            Ok(Ok(_)) => continue,
+                            _ => break,
+                        }
+                    }
+                    Some(again)
+                }
+                _ => None,
+            };
+            Ok((lost_after, still, extra))
         });
-        let (lost_after, still) = res?;
-        rt.shutdown_timeout(Duration::from_secs(3));
-        let ok = matches!(lost_after, Some(ms) if ms <= 1800) && !still;
+        let (lost_after, still, extra) = res?;
+        rt.shutdown_timeout(Duration::from_secs(4));
+        let ok = matches!(lost_after, Some(ms) if ms <= 1800) && !still && extra != Some(false);
         if !ok {
-            run.oracle_fail(json!({"kind": "a peer whose connection ended stayed listed / unannounced while one of its handlers was still running", "case": case, "lost_peer_after_ms": lost_after.map(|x| x as u64), "still_listed_after_2200ms": still}));
+            let kind = match (what, extra) {
+                ("limit", Some(false)) => "a peer that has left still counts against the connection limit while one of its handlers is running (a new peer was refused)",
+                ("redial", Some(false)) => "a lost High-affinity peer was not dialled again while one of its old handlers was still running",
+                _ => "a peer whose connection ended stayed listed / unannounced while one of its handlers was still running",
+            };
+            run.oracle_fail(json!({"kind": kind, "case": case, "lost_peer_after_ms": lost_after.map(|x| x as u64), "still_listed_after_2200ms": still}));
         }
-        run.count("blocked-handler-exit", if ok { "prompt" } else { "late" });
-        run.eval(&format!("blocked{case}"), true);
+        run.count(&format!("blocked-handler/{what}"), if ok { "prompt" } else { "late" });
+        run.eval(&format!("blocked{what}{case}"), true);
     }
     Ok(())
 }
@@ -960,10 +1005,35 @@ fn mutual_dial_case(run: &mut Run, seed: u64, case: u64) -> anyhow::Result<()> {
         let fabric = Fabric::new(seed ^ case);
         let lat = 200 + rng.below(30_000);
         fabric.set_faults(Faults { loss_permille: if rng.chance(1, 3) { rng.below(80) } else { 0 }, dup_permille: rng.below(10), min_latency_us: lat, max_latency_us: lat + rng.below(20_000) });
-        let a = start_node(&fabric, seed ^ case, 1, config_idle(20_000))?;
-        let b = start_node(&fabric, seed ^ case, 2, config_idle(20_000))?;
+        // a connection limit of 1 on either end must not get in the way of the pair's own convergence
+        let lim = rng.below(6);
+        let mut ca = config_idle(20_000);
+        let mut cb = config_idle(20_000);
+        if lim == 0 || lim == 2 {
+            ca.max_concurrent_connections = Some(1);
+        }
+        if lim == 1 || lim == 2 {
+            cb.max_concurrent_connections = Some(1);
+        }
+        let a = start_node(&fabric, seed ^ case, 1, ca)?;
+        let b = start_node(&fabric, seed ^ case, 2, cb)?;
         let mut la = NodeLog::new(&a.net);
         let mut lb = NodeLog::new(&b.net);
+        // applications keep `Peer` handles: the first one each side can get hold of is kept across whatever
+        // replacement follows and used again once the pair is quiet
+        let early: Arc<Mutex<[Option<anemo::Peer>; 2]>> = Arc::new(Mutex::new([None, None]));
+        for (k, (net, other)) in [(a.net.clone(), b.id), (b.net.clone(), a.id)].into_iter().enumerate() {
+            let early = early.clone();
+            tokio::spawn(async move {
+                for _ in 0..4000 {
+                    if let Some(p) = net.peer(other) {
+                        early.lock().unwrap()[k] = Some(p);
+                        break;
+                    }
+                    tokio::time::sleep(Duration::from_micros(500)).await;
+                }
+            });
+        }
         let skew = Duration::from_micros(rng.below(120_000));
         let first_a = rng.chance(1, 2);
         let (na, nb, aa, ab) = (a.net.clone(), b.net.clone(), a.addr, b.addr);
@@ -1010,9 +1080,20 @@ fn mutual_dial_case(run: &mut Run, seed: u64, case: u64) -> anyhow::Result<()> {
                 }
             }
         }
+        // the retained handles may point at the connection that lost (then the call just fails); using them
+        // must not disturb the surviving connection
+        let handles: Vec<Option<anemo::Peer>> = { let mut g = early.lock().unwrap(); vec![g[0].take(), g[1].take()] };
+        for (k, h) in handles.into_iter().enumerate() {
+            if let Some(mut h) = h {
+                let _ = tokio::time::timeout(Duration::from_secs(5), h.rpc(Request::new(Bytes::from_static(b"old")).with_header("x-id", format!("old{k}")))).await;
+            }
+        }
         tokio::time::sleep(Duration::from_secs(8)).await;
         la.pump();
         lb.pump();
+        if problem.is_none() && (a.net.peers() != vec![b.id] || b.net.peers() != vec![a.id]) {
+            problem = Some("the pair is no longer connected after a retained Peer handle was used".into());
+        }
         if problem.is_none() && (la.events.len() != ea || lb.events.len() != eb) {
             problem = Some("further connect/disconnect events after the pair went quiet".into());
         }
